@@ -597,6 +597,20 @@ func (w *world) phase(st *Step) *PhaseObs {
 			otherHist = w.histAB
 		}
 		for _, e := range st.Edit {
+			if e.Kind == "poison" {
+				// a forged would-be first frame whose IV field is the nonce of the receiver's OWN frame J
+				// (its base IV with the counter word advanced by J), followed by 16 junk bytes: it cannot
+				// open, but it is long enough for the receiver to get as far as gcm.Open
+				body := make([]byte, 32)
+				if len(otherHist) > 0 && len(otherHist[0].Body) >= 16 {
+					copy(body, Nonce(otherHist[0].Body[:16], uint32(e.J)))
+				}
+				for i := 16; i < 32; i++ {
+					body[i] = 0x5c
+				}
+				edited = append(edited, RawFrame{Flag: 1, Len: 32, Body: body}.Bytes()...)
+				continue
+			}
 			if e.Kind == "refl" { // a frame of the OTHER direction handed to this receiver (reflection)
 				e.Kind = "gen"
 				edited = append(edited, w.materialize(otherHist, e)...)
